@@ -229,6 +229,62 @@ def verifyOffChain (c : Chain) (bal : Nat) (t : VTx) : Option TxErr :=
     | some e => some e
     | none => if bal < t.sysFee + t.netFee then some .insufficientFunds else none
 
+/-! ### which pooled transactions survive a block (the `keep` of the AddBlock model) -/
+
+/-- what `fee.Calculate` knows of a witness without running it: the cost of a standard
+(signature / multi-signature) verification script, `none` for anything else. -/
+def Witness.stdCost : Witness → Option Nat
+  | .script _ _ _ _ cost => some cost
+  | .contract _ => none
+
+/-- `Blockchain.IsTxStillRelevant(t, txpool, false)` (blockchain.go:3201-3249), as written, at the chain
+state AFTER the block. `conf` = the conflict test: `txpool.HasConflicts(t)` (the transaction is in the
+block, is named by a Conflicts attribute of a block transaction, or names a block transaction;
+mem_pool.go:152-169) or, without a scratch pool, `dao.HasTransaction(..) != nil`. `std` = per witness the
+cost `fee.Calculate` gives for a standard verification script, `none` for a non-standard one. -/
+def stillRelevant (c : Chain) (t : VTx) (conf : Bool) (std : List (Option Nat)) : Bool :=
+  if t.vub ≤ c.height then false
+  else if t.vub > c.height + c.maxVUBInc then false
+  else if conf then false
+  else if t.accounts.any c.blocked then false
+  else if t.netFee < needFee c t then false
+  else if !verifyAttrs c t then false
+  else if std.all Option.isSome then decide (needFee c t + (std.filterMap id).sum ≤ t.netFee)
+  else (verifyWitnesses c (t.netFee - needFee c t) t.wits).isSome
+
+/-- `Pool.RemoveStale` keeps a pooled transaction (mem_pool.go:433-479): still relevant, and the sender can
+still pay it (`tryAddSendersFee`; the pool's fee-per-byte test is implied by the network-fee test of
+IsTxStillRelevant). For the only pooled transaction of its sender. -/
+def keptInPool (c : Chain) (bal : Nat) (t : VTx) (conf : Bool) : Bool :=
+  stillRelevant c t conf (t.wits.map Witness.stdCost) && decide (t.sysFee + t.netFee ≤ bal)
+
+/-- the hashes named by the Conflicts attributes -/
+def VTx.confHashes (t : VTx) : List Nat :=
+  t.attrs.filterMap (fun a => match a with | .conflicts h => some h | _ => none)
+
+/-- `txpool.HasConflicts(t)` for the scratch pool holding the block's transactions (mem_pool.go:152-169):
+`t` is in the block, a block transaction names it, or it names a block transaction. -/
+def blockConflict (txs : List VTx) (t : VTx) : Bool :=
+  txs.any (fun q => q.id == t.id) || txs.any (fun q => q.confHashes.contains t.id) ||
+    t.confHashes.any (fun h => txs.any (fun q => q.id == h))
+
+/-- what a block's transactions leave under a hash (dao.StoreAsTransaction, dao.go:947-991): the
+transaction record under its own hash, a conflict record (content `stub x`) under every hash one of them
+names, everything else untouched. -/
+def lookupAfter (look : Nat → Rec) (txs : List VTx) (stub : Nat → Rec) : Nat → Rec := fun x =>
+  if txs.any (fun q => q.id == x) then .tx
+  else if txs.any (fun q => q.confHashes.contains x) then stub x
+  else look x
+
+/-! ### GAS.OnPersist's fee burn -/
+
+/-- GAS.OnPersist (pkg/core/native/native_gas.go:109-117) burns SystemFee + NetworkFee of every
+transaction of the block from its sender, in order; burning more than the balance fails the persisting
+script and with it storeBlock. Amounts are non-negative, so the burns succeed iff every sender's balance
+covers the sum of its fees in the block. -/
+def burnOK (bal : Nat → Nat) (txs : List Tx) : Bool :=
+  txs.all (fun t => decide (sumBy (·.fee) (txs.filter (fun q => q.sender == t.sender)) ≤ bal t.sender))
+
 /-! ### the transaction loop with the reason of the refusal -/
 
 /-- mempool.Pool.Add into the scratch pool with its error class (`poolAdd` of Model/AddBlock says
